@@ -4,9 +4,15 @@ generated/GenWidth.vos generated/GenWidth.vok generated/GenWidth.required_vos: g
 Util.vo Util.glob Util.v.beautified Util.required_vo: Util.v 
 Util.vio: Util.v 
 Util.vos Util.vok Util.required_vos: Util.v 
+UtilProofs.vo UtilProofs.glob UtilProofs.v.beautified UtilProofs.required_vo: UtilProofs.v Util.vo
+UtilProofs.vio: UtilProofs.v Util.vio
+UtilProofs.vos UtilProofs.vok UtilProofs.required_vos: UtilProofs.v Util.vos
 GenIdx.vo GenIdx.glob GenIdx.v.beautified GenIdx.required_vo: GenIdx.v Util.vo generated/GenWidth.vo
 GenIdx.vio: GenIdx.v Util.vio generated/GenWidth.vio
 GenIdx.vos GenIdx.vok GenIdx.required_vos: GenIdx.v Util.vos generated/GenWidth.vos
+GenIdxProofs.vo GenIdxProofs.glob GenIdxProofs.v.beautified GenIdxProofs.required_vo: GenIdxProofs.v Util.vo UtilProofs.vo GenIdx.vo generated/GenWidth.vo
+GenIdxProofs.vio: GenIdxProofs.v Util.vio UtilProofs.vio GenIdx.vio generated/GenWidth.vio
+GenIdxProofs.vos GenIdxProofs.vok GenIdxProofs.required_vos: GenIdxProofs.v Util.vos UtilProofs.vos GenIdx.vos generated/GenWidth.vos
 SigDefs.vo SigDefs.glob SigDefs.v.beautified SigDefs.required_vo: SigDefs.v GenIdx.vo
 SigDefs.vio: SigDefs.v GenIdx.vio
 SigDefs.vos SigDefs.vok SigDefs.required_vos: SigDefs.v GenIdx.vos
